@@ -9,7 +9,7 @@ use crate::oracle::{self, CaseOutput, Finding, PipelineWant};
 use crate::prng::{Prng, derive};
 use crate::replayfile::ReplayFile;
 use crate::scenario::{Entry, Scenario, SchedSpec};
-use crate::simsched::{STRAT_PCT, STRAT_STARVE, STRAT_STICKY, STRAT_UNIFORM, Trace};
+use crate::simsched::{STRAT_PAUSE, STRAT_PCT, STRAT_STARVE, STRAT_STICKY, STRAT_UNIFORM, Trace};
 use crate::workload::{self, GenOptions, Profile};
 use serde_json::{Value, json};
 use std::path::Path;
@@ -51,7 +51,7 @@ pub enum SchedMode {
 pub fn sched_for(seed: u64, idx: u64, mode: SchedMode) -> SchedSpec {
     let case_seed = derive(seed, 0x5ced_0000 ^ idx);
     let mut rng = Prng::new(derive(case_seed, 1));
-    let strategy = [STRAT_UNIFORM, STRAT_STICKY, STRAT_PCT, STRAT_STARVE][rng.pick_weighted(&[30, 30, 25, 15])];
+    let strategy = [STRAT_UNIFORM, STRAT_STICKY, STRAT_PCT, STRAT_STARVE, STRAT_PAUSE][rng.pick_weighted(&[15, 20, 15, 10, 40])];
     let (p1, p2, p3) = match strategy {
         STRAT_STICKY => (*rng.pick(&[512u32, 800, 960, 1000]), 0, 0),
         STRAT_PCT => (rng.range(1, 6) as u32, *rng.pick(&[300u32, 1000, 3000]), 0),
@@ -59,6 +59,11 @@ pub fn sched_for(seed: u64, idx: u64, mode: SchedMode) -> SchedSpec {
             *rng.pick(&[2u32, 3, 4, 4, 1]), // finality, commit, worker, worker, caller
             rng.below(1500) as u32,
             *rng.pick(&[50u32, 300, 2000, 10_000]),
+        ),
+        STRAT_PAUSE => (
+            *rng.pick(&[16u32, 32, 64, 128, 256]),
+            *rng.pick(&[30u32, 150, 600, 3000]),
+            *rng.pick(&[1024u32, 512, 128, 32]),
         ),
         _ => (0, 0, 0),
     };
